@@ -33,10 +33,11 @@ def plan(tier, seed):
         by_mode = {
             'absent': [dict(n=3, m=2, labels='ints', schemes='six', per=6), dict(n=3, m=3, labels='ints', schemes='one', per=30, maxk=256),
                        dict(n=4, m=2, labels='ints', schemes='one_b', per=30, maxk=256, components_only=True)],
-            'absent_enum': [dict(n=4, m=2, labels='ints', schemes='all', per=60), dict(n=3, m=3, labels='ints', schemes='all', per=60),
+            'absent_enum': [dict(n=4, m=2, labels='ints', schemes='six', per=60), dict(n=3, m=3, labels='ints', schemes='six', per=60),
 
                             dict(space='ext43', ext='all27', labels='ints', schemes='ext', per=100)],
-            'stub': [dict(n=4, m=2, labels='ints', schemes='all', per=60), dict(n=3, m=3, labels='ints', schemes='all', per=60),
+            'stub': [dict(n=4, m=2, labels='ints', schemes='six', per=60), dict(n=4, m=2, labels='ints', schemes='rest11', per=60, flags='one'),
+                     dict(n=3, m=3, labels='ints', schemes='six', per=60),
                      dict(n=5, m=2, labels='ints', schemes='one_b', per=2000, maxk=256, flags='one', configs='plain'),
                      dict(n=4, m=3, labels='ints', schemes='one', per=4000, maxk=512, flags='one', configs='plain'),
                      dict(n=4, m=2, labels=alt, schemes='two', per=60),
